@@ -72,6 +72,37 @@ func c15r1(rc *core.RC) {
 		}
 		return be.Op, v, true
 	}
+	// a guard inside a loop that appends to the measured slice afterwards bounds the final length by one more
+	appendsAfter := func(ifs *ast.IfStmt, measured ast.Expr) bool {
+		obj := core.ObjOf(info, measured)
+		if obj == nil {
+			return false
+		}
+		grows := false
+		for _, anc := range core.PathTo(fd.Body, ifs) {
+			var body *ast.BlockStmt
+			switch l := anc.(type) {
+			case *ast.ForStmt:
+				body = l.Body
+			case *ast.RangeStmt:
+				body = l.Body
+			}
+			if body == nil {
+				continue
+			}
+			ast.Inspect(body, func(m ast.Node) bool {
+				as, ok := m.(*ast.AssignStmt)
+				if !ok || len(as.Lhs) != 1 || len(as.Rhs) != 1 || core.ObjOf(info, as.Lhs[0]) != obj {
+					return true
+				}
+				if c, ok := core.Unparen(as.Rhs[0]).(*ast.CallExpr); ok && core.IsBuiltin(info, c, "append") {
+					grows = true
+				}
+				return true
+			})
+		}
+		return grows
+	}
 	ast.Inspect(fd.Body, func(n ast.Node) bool {
 		ifs, ok := n.(*ast.IfStmt)
 		if !ok || len(ifs.Body.List) == 0 {
@@ -80,13 +111,20 @@ func c15r1(rc *core.RC) {
 		if _, isRet := ifs.Body.List[len(ifs.Body.List)-1].(*ast.ReturnStmt); !isRet {
 			return true
 		}
-		if op, c, ok := lenCmp(ifs.Cond); ok {
-			switch op {
-			case token.GTR:
-				earlyBounds = append(earlyBounds, bound{ifs.End(), c})
-			case token.GEQ:
-				earlyBounds = append(earlyBounds, bound{ifs.End(), c - 1})
+		for _, d := range disjuncts(ifs.Cond) {
+			op, c, ok := lenCmp(d)
+			if !ok {
+				continue
 			}
+			if op == token.GEQ {
+				c--
+			} else if op != token.GTR {
+				continue
+			}
+			if appendsAfter(ifs, core.Unparen(d).(*ast.BinaryExpr).X.(*ast.CallExpr).Args[0]) {
+				c++
+			}
+			earlyBounds = append(earlyBounds, bound{ifs.End(), c})
 		}
 		return true
 	})
@@ -1762,4 +1800,59 @@ func nodeExpr(n ast.Node) ast.Expr {
 		return e
 	}
 	return nil
+}
+
+// ---- C15.R19 a field counts as tagged only when its tag name is taken ----
+
+// encoding/json ranks a field as "tagged" (it wins over same-named untagged fields at the same depth) only when the
+// tag supplied its name; a tag whose name part is invalid is ignored and the field competes under its Go name as an
+// untagged one. In StructTagFromField every `IsTaggedKey = true` therefore stands under the isValidTag test, next to
+// the assignment of the key name from the tag.
+func c15r19(rc *core.RC) {
+	p := rc.P
+	fd := p.Func("runtime", "StructTagFromField")
+	if fd == nil || fd.Body == nil {
+		rc.Unknown("runtime.StructTagFromField", token.NoPos, "function not found")
+		return
+	}
+	info := p.Info(fd)
+	fn := p.FuncName(fd)
+	rc.Touch(fn)
+	n := 0
+	ast.Inspect(fd.Body, func(x ast.Node) bool {
+		as, ok := x.(*ast.AssignStmt)
+		if !ok || len(as.Lhs) != 1 || len(as.Rhs) != 1 {
+			return true
+		}
+		sel, ok := core.Unparen(as.Lhs[0]).(*ast.SelectorExpr)
+		if !ok || sel.Sel.Name != "IsTaggedKey" {
+			return true
+		}
+		if id, ok := core.Unparen(as.Rhs[0]).(*ast.Ident); ok && id.Name == "false" {
+			return true
+		}
+		n++
+		key := fmt.Sprintf("%s/IsTaggedKey#%d only-for-a-valid-tag-name", fn, n)
+		under := false
+		for _, c := range condChainNodes(fd, as) {
+			if !c.pos {
+				continue
+			}
+			for _, cj := range conjuncts(c.cond) {
+				if call, ok := core.Unparen(cj).(*ast.CallExpr); ok && strings.HasSuffix(core.CalleeName(info, call), "isValidTag") {
+					under = true
+				}
+			}
+		}
+		if id, ok := core.Unparen(as.Rhs[0]).(*ast.Ident); !ok || id.Name != "true" {
+			// computed value: it has to be the validity test itself
+			call, isCall := core.Unparen(as.Rhs[0]).(*ast.CallExpr)
+			under = under || (isCall && strings.HasSuffix(core.CalleeName(info, call), "isValidTag"))
+		}
+		rc.Check(under, key, as.Pos(), "the field is marked as tagged only under the isValidTag test of the tag's name part: a field whose tag name is invalid keeps its Go name and ranks as untagged, as in encoding/json (marked regardless, it beats or cancels same-named fields it should lose to or share with)")
+		return true
+	})
+	if n < 1 {
+		rc.Unknown(fn+"/IsTaggedKey", fd.Pos(), "no assignment of IsTaggedKey found")
+	}
 }
